@@ -1,7 +1,7 @@
 /-
   Atto/Model/Lines.lean — src/parsing/buffers.rs
 -/
-import Atto.Std.BufReader
+import Atto.Std.Src
 namespace Atto
 
 def LF : UInt8 := 10
@@ -16,8 +16,8 @@ def stripEol (bs : Bytes) : Option Bytes :=
   | _ => none
 
 /-- src/parsing/buffers.rs:3-19 `read_line`: one `read_until` under a `Take(limit)`; CRLF or LF. -/
-def readLine (r : BufR) (limit : Nat) : RR Bytes × BufR :=
-  match r.readUntil limit with
+def readLine (S : Src σ) (r : σ) (limit : Nat) : RR Bytes × σ :=
+  match S.readUntil r limit with
   | (.ok (bs, _), r') =>
     (match stripEol bs with
      | some line => (.ok line, r')
@@ -29,30 +29,30 @@ def readLine (r : BufR) (limit : Nat) : RR Bytes × BufR :=
 /-- src/parsing/buffers.rs:21-44 `read_line_strict`: repeated `read_until` on the *same* `Take`;
     only CRLF ends the line, inner bare LFs are kept. `buf[buf.len()-1]` and `buf[buf.len()-2]`
     are guarded by `k == 0 ||` resp. `k >= 2`. -/
-def readLineStrictLoop : Nat → BufR → Nat → Bytes → RR Bytes × BufR
+def readLineStrictLoop (S : Src σ) : Nat → σ → Nat → Bytes → RR Bytes × σ
   | 0, r, _, _ => (.panic, r)                    -- fuel exhausted: unreachable (lemma)
   | fuel+1, r, limit, buf =>
-    match r.readUntil limit with
+    match S.readUntil r limit with
     | (.ok (bs, limit'), r') =>
       let buf' := buf ++ bs
       let k := bs.length
       if k = 0 then (.err .eof, r')
       else if buf'.getLast? != some 10 then (.err .eof, r')
       else if k ≥ 2 ∧ (buf'.dropLast).getLast? = some 13 then (.ok (buf'.dropLast.dropLast), r')
-      else readLineStrictLoop fuel r' limit' buf'
+      else readLineStrictLoop S fuel r' limit' buf'
     | (.err e, r') => (.err e, r')
     | (.blocked, r') => (.blocked, r')
     | (.panic, r') => (.panic, r')
 
-def readLineStrict (r : BufR) (limit : Nat) : RR Bytes × BufR :=
-  readLineStrictLoop (limit + 1) r limit []
+def readLineStrict (S : Src σ) (r : σ) (limit : Nat) : RR Bytes × σ :=
+  readLineStrictLoop S (limit + 1) r limit []
 
 /-- src/parsing/buffers.rs:46-58 `read_line_ending`. -/
-def readLineEnding (r : BufR) : RR Bool × BufR :=
-  match r.readExact 1 with
+def readLineEnding (S : Src σ) (r : σ) : RR Bool × σ :=
+  match S.readExact r 1 with
   | (.ok [b], r') =>
     if b = 13 then
-      (match r'.readExact 1 with
+      (match S.readExact r' 1 with
        | (.ok [b2], r'') => (.ok (b2 = 10), r'')
        | (.ok _, r'') => (.panic, r'')
        | (.err e, r'') => (.err e, r'')
